@@ -10,6 +10,10 @@
 //                               encoding fed back is accepted and re-marshals identically
 //           ok <hex> UNSTABLE   … it is not
 //           err                 Unmarshal returned an error
+// Op line:  pair <type> <hexA> <hexB> [o:<oracle>]
+//                               decode A into a fresh value and re-marshal it, decode B into another
+//                               fresh value, then re-marshal the value obtained from A again
+// Obs line: A=<r> B=<r> A2=<r>  r = ok:<hex> | err; A2 must equal A (decoded values share no state)
 //           PANIC … / HANG      (caught by hx)
 //
 // Three streams per type (DESIGN §5 C19): (i) random well-formed values, (ii) random bytes,
@@ -79,6 +83,9 @@ type typ struct {
 }
 
 var types []*typ
+
+// forceAction >= 0 makes the coordination message generator use that proposal action type.
+var forceAction = -1
 var byName = map[string]*typ{}
 
 func reg(t *typ) { types = append(types, t); byName[t.name] = t }
@@ -377,6 +384,9 @@ func init() {
 			p := m.(*tbtcpb.CoordinationMessage)
 			p.WalletPublicKeyHash = r.Bytes(20)
 			at := r.Intn(6)
+			if forceAction >= 0 {
+				at = forceAction
+			}
 			p.Proposal = &tbtcpb.CoordinationProposal{ActionType: uint32(at), Payload: validOf(r, proposals[at])}
 		}})
 	reg(&typ{name: "tbtc.Noop", mk: func() codec { return &tbtc.NoopProposal{} }})
@@ -899,10 +909,91 @@ func boundaryOps(r *hx.Rng, t *typ) []string {
 	return ops
 }
 
+// omissions returns every encoding obtained from b by omitting, or emptying, exactly one field
+// at any depth: sub-messages (by descriptor) and nested keep-core encodings (t.nested) are
+// entered recursively, so every nested sub-message is absent once and empty once.
+func omissions(b []byte, md protoreflect.MessageDescriptor, nested map[int32]string, depth int) [][]byte {
+	fs, ok := splitFields(b)
+	if !ok || depth > 6 {
+		return nil
+	}
+	var out [][]byte
+	for i, f := range fs {
+		rep := func(nf ...rawField) []byte {
+			o := append([]rawField(nil), fs[:i]...)
+			o = append(o, nf...)
+			o = append(o, fs[i+1:]...)
+			return joinFields(o)
+		}
+		out = append(out, rep())
+		if f.wt != protowire.BytesType {
+			continue
+		}
+		var sub protoreflect.MessageDescriptor
+		var subNested map[int32]string
+		if md != nil {
+			if fd := md.Fields().ByNumber(f.num); fd != nil && fd.Message() != nil {
+				sub = fd.Message()
+			}
+		}
+		if tn, ok := nested[int32(f.num)]; ok && sub == nil {
+			if t := byName[tn]; t != nil && t.pb != nil {
+				sub = t.pb().ProtoReflect().Descriptor()
+				subNested = t.nested
+			}
+		}
+		if sub == nil {
+			continue
+		}
+		out = append(out, rep(lenField(f.num, nil)))
+		for _, v := range omissions(payload(f), sub, subNested, depth+1) {
+			out = append(out, rep(lenField(f.num, v)))
+		}
+	}
+	return out
+}
+
+// pairLine: decode A, decode B, then look at A's value again (decoded values must be independent).
+func pairLine(t *typ, a, b []byte) string {
+	line := "pair " + t.name + " " + hexOrDash(a) + " " + hexOrDash(b)
+	oa, ob := oracle(t, a), oracle(t, b)
+	switch {
+	case oa != "" && ob != "":
+		line += " o:" + oa + "," + ob
+	case oa != "":
+		line += " o:" + oa
+	case ob != "":
+		line += " o:" + ob
+	}
+	return line
+}
+
 func gen(r *hx.Rng, n int, tier string) []string {
 	var ops []string
 	for _, t := range types {
 		ops = append(ops, boundaryOps(r, t)...)
+	}
+	for _, t := range types {
+		if t.pb == nil {
+			ops = append(ops, pairLine(t, r.Bytes(3), r.Bytes(4)))
+			continue
+		}
+		for i := 0; i < 2; i++ {
+			ops = append(ops, pairLine(t, validOf(r, t.name), validOf(r, t.name)))
+		}
+		seen := map[string]bool{}
+		for _, v := range omissions(validOf(r, t.name), descOf(t), t.nested, 0) {
+			if l := opLine(t, v); !seen[l] {
+				seen[l] = true
+				ops = append(ops, l)
+			}
+		}
+	}
+	for at := 0; at < 6; at++ { // coordination messages: two messages of the same proposal kind
+		forceAction = at
+		t := byName["tbtc.Coordination"]
+		ops = append(ops, pairLine(t, validOf(r, t.name), validOf(r, t.name)))
+		forceAction = -1
 	}
 	// systematic sweep: every type, empty input, one valid value, every single-field mutation of it
 	for _, t := range types {
@@ -938,6 +1029,8 @@ func gen(r *hx.Rng, n int, tier string) []string {
 			t = hx.Pick(r, types)
 		}
 		switch s := r.Intn(100); {
+		case s < 8 && t.pb != nil: // pair of well-formed values
+			ops = append(ops, pairLine(t, validOf(r, t.name), validOf(r, t.name)))
 		case s < 35 && t.pb != nil: // (i) well-formed
 			ops = append(ops, wfLine(t, validOf(r, t.name)))
 		case s < 45 && t.pb != nil: // (i') generically filled, not fixed up
@@ -1008,8 +1101,65 @@ func hexOrDash(b []byte) string {
 	return hex.EncodeToString(b)
 }
 
+// decodeOne: Unmarshal + canonical re-marshal of one input into a fresh value.
+func decodeOne(t *typ, in []byte) (codec, string) {
+	v := t.mk()
+	if err := v.Unmarshal(in); err != nil {
+		return nil, "err"
+	}
+	return v, remarshal(t, v)
+}
+
+func remarshal(t *typ, v codec) string {
+	out, err := v.Marshal()
+	if err != nil {
+		return "MARSHAL-ERROR"
+	}
+	c, ok := canon(t, out)
+	if !ok {
+		return "REMARSHAL-NOT-PROTO"
+	}
+	return "ok:" + c
+}
+
+func execPair(f []string) (string, string) {
+	if len(f) < 4 || len(f) > 5 || (len(f) == 5 && !strings.HasPrefix(f[4], "o:")) {
+		return "bad-op", "bad"
+	}
+	t := byName[f[1]]
+	if t == nil {
+		return "bad-op", "bad"
+	}
+	dec := func(h string) ([]byte, bool) {
+		if h == "-" {
+			return nil, true
+		}
+		b, err := hex.DecodeString(h)
+		return b, err == nil
+	}
+	a, ok1 := dec(f[2])
+	b, ok2 := dec(f[3])
+	if !ok1 || !ok2 {
+		return "bad-op", "bad"
+	}
+	va, ra := decodeOne(t, a)
+	_, rb := decodeOne(t, b)
+	ra2 := "err"
+	if va != nil {
+		ra2 = remarshal(t, va) // the value decoded from A, after B was decoded
+	}
+	tag := "pair"
+	if ra2 != ra {
+		tag = "pair+aliased"
+	}
+	return "A=" + ra + " B=" + rb + " A2=" + ra2, tag
+}
+
 func exec(op string) (string, string) {
 	f := strings.Fields(op)
+	if len(f) > 0 && f[0] == "pair" {
+		return execPair(f)
+	}
 	if len(f) < 2 || len(f) > 4 {
 		return "bad-op", "bad"
 	}
